@@ -224,7 +224,7 @@ def main():
         "ln_unmarginalized_likelihood is called (the check supplies the calibration term)",
         "reference prior / posterior densities from the declared prior (capped K variance)",
     ]
-    return chk.finish()
+    return chk.finish(run_case)
 
 
 def replay(doc):
